@@ -666,6 +666,9 @@ func statName(res string) string {
 // ---------------------------------------------------------------------------------- interpreter
 
 func exec(line string) {
+	if jexec(line) {
+		return
+	}
 	f := strings.Fields(line)
 	bad := func() { out.Op(line, "bad-op") }
 	if len(f) == 0 {
@@ -873,6 +876,13 @@ func main() {
 		return
 	}
 	r := gen.New(gen.Seed())
+	if os.Getenv("VERIF_C10_MODE") == "join" {
+		for i := 0; i < gen.Scale(600, 12000); i++ {
+			joinEpisode(r, i%4 == 3)
+		}
+		out.Sample(fmt.Sprintf("join tables: left gameaddr(txhash|gameID,addr) %v, right game(gameID|status) %v, indexes addr#status, #status", txs, gids))
+		return
+	}
 	n := gen.Scale(900, 12000)
 	for i := 0; i < n; i++ {
 		backend := "mem"
